@@ -190,11 +190,17 @@ def check(ctx):
     rec = [c for _, c in calls_in(mark) if isinstance(c.func, ast.Attribute) and c.func.attr == "_mark_obsolete"]
     ok = False
     why = "no recursive call self._predecessor._mark_obsolete()"
+    from ..forms import expand as _expand17
     for c in rec:
-        recv = c.func.value
+        recv0 = c.func.value
+        recv = _expand17(mark, recv0, c)
         if isinstance(recv, ast.Attribute) and recv.attr == "_predecessor" and isinstance(recv.value, ast.Name) \
                 and recv.value.id == mark.params[0]:
-            facts = facts_at(mark, c)
+            facts = set(facts_at(mark, c))
+            if isinstance(recv0, ast.Name):
+                # facts about the temporary are facts about the link
+                import re as _re17
+                facts = {(k, _re17.sub(rf"\b{recv0.id}\b", norm(recv), t)) for k, t in facts}
             guards = [t for k, t in facts if k == "T" and "_predecessor" in t] + \
                      [t for k, t in facts if k == "F" and "_predecessor" in t and "None" in t]
             # the guard may only exclude a missing predecessor
